@@ -188,7 +188,7 @@ def ign_fresh(root, pats, p):
 
 
 def cache_entry_ok(cache, p):
-    """Type invariant of the memo cache: entries are bools."""
+    """The memo entry of p, if any, is a bool (not needed by is_ignored itself, which returns the entry as is)."""
     return implies(path_str(p) in cache, isinstance(cache[path_str(p)], bool))
 
 
@@ -197,24 +197,27 @@ def cache_coherent(cache, root, pats, p):
 
 
 def ign_now(cache, root, pats, p):
-    """What is_ignored returns in the current state: the memoised verdict if there is one."""
-    return (cache[path_str(p)] == True) if path_str(p) in cache else ign_fresh(root, pats, p)  # noqa: E712
+    """What is_ignored answers in the current state: the memoised verdict if there is one (whatever object the memo
+    holds is returned as is; only its truth value matters to the callers)."""
+    return bool(cache[path_str(p)]) if path_str(p) in cache else ign_fresh(root, pats, p)
+
+
+def cache_after(cache, root, pats, p):
+    """The memo after is_ignored(p): a miss stores the computed verdict, a hit changes nothing."""
+    return cache if path_str(p) in cache else dict_put(cache, path_str(p), ign_fresh(root, pats, p))
 
 
 @contract(IG + "IgnoreDirectiveParser.is_ignored", props=["C14", "C09", "C08", "C04"],
-          types=dict(self=ParserT, file_path=PathT, path_str=Str, check_path=Str, result=Bool), returns=Bool,
+          types=dict(self=ParserT, file_path=PathT, path_str=Str, check_path=Str, result=Bool), returns=Any,
           modifies=["self._ignore_cache"])
 class IsIgnored:
-    def requires(self, file_path):
-        return cache_entry_ok(self._ignore_cache, file_path)
-
     def ensures_memoised_or_computed(self, file_path, result, old):
-        return result == ign_now(old.self._ignore_cache, self.project_root, self.repo_patterns, file_path)
+        return bool(result) == ign_now(old.self._ignore_cache, self.project_root, self.repo_patterns, file_path)
 
     def ensures_matches_some_pattern(self, file_path, result, old):
         # property text: ignored <=> matches a repository pattern (given a coherent memo entry for this file)
         return implies(cache_coherent(old.self._ignore_cache, self.project_root, self.repo_patterns, file_path),
-                       result == ign_fresh(self.project_root, self.repo_patterns, file_path))
+                       bool(result) == ign_fresh(self.project_root, self.repo_patterns, file_path))
 
     def ensures_cache_updated(self, file_path, result, old):
-        return self._ignore_cache == dict_put(old.self._ignore_cache, path_str(file_path), result)
+        return self._ignore_cache == cache_after(old.self._ignore_cache, self.project_root, self.repo_patterns, file_path)
